@@ -18,27 +18,15 @@
    Every emitted token carries the requirement on the gap in front of it:
    GReq = whitespace required, GNo = whitespace forbidden, GFree = no requirement.
 
-   `known_*` are the narrow decidable classes of inputs on which the code is known to deviate
-   (DESIGN.md section 6 / known_findings.json); `wf_tree` is "well-formed stylesheet". *)
+   `known` lists the narrow decidable classes of inputs on which the code is known to deviate
+   (known_findings.json: D15 D24 D25 D26 D27 D28); `wf_tree` is "well-formed stylesheet". *)
 From GE Require Export Model.Css.
 Open Scope N_scope.
 
 Inductive gap := GFree | GReq | GNo.
 Record etok := mke { e_gap : gap; e_tok : tok }.
 
-Definition lower (c : N) : N := if is_upper c then c + 32 else c.
-Definition str_eqb_ci (a b : str) : bool := str_eqb (map lower a) (map lower b).
-
-Definition s_min : str := [109; 105; 110].
-Definition s_max : str := [109; 97; 120].
-Definition s_clamp : str := [99; 108; 97; 109; 112].
-Definition s_container : str := [99; 111; 110; 116; 97; 105; 110; 101; 114].
-Definition s_scope : str := [115; 99; 111; 112; 101].
-Definition s_starting_style : str := [115; 116; 97; 114; 116; 105; 110; 103; 45; 115; 116; 121; 108; 101].
-Definition s_url : str := [117; 114; 108].
-
-Definition is_math_name (s : str) : bool :=
-  str_eqb_ci s s_calc || str_eqb_ci s s_min || str_eqb_ci s s_max || str_eqb_ci s s_clamp.
+(* `lower`, `str_eqb_ci`, `is_math_name` and the at-rule / function names are shared with Css.v *)
 
 Definition child_math (math : bool) (open : tok) : bool :=
   match open with
@@ -170,7 +158,10 @@ Fixpoint sel_list (conv : bool) (l : list node) (first ws cmt in_class : bool)
         let g := if first || is_curly t then GFree
                  else if ws then GReq else if cmt || is_numeric t then GFree else GNo in
         (match n with
-         | Block open _ _ _ _ => [mke g open] ++ rec n ++ [mke GFree (close_of open)]
+         | Block open _ _ _ _ =>
+             (* a math function is a value wherever it occurs (e.g. inside a media feature) *)
+             [mke g open] ++ (if is_math_fn open then val_node o n true else rec n)
+             ++ [mke GFree (close_of open)]
          | Leaf (TIdent s) _ =>
              if in_class then
                match class_prefix_sign o, class_prefix o with
@@ -252,7 +243,7 @@ Definition host_selector (o : opts) : list etok :=
   end.
 
 (* ---- @import ---- *)
-Definition import_target (l : list node) : option (str * list node) :=
+Definition spec_import_target (l : list node) : option (str * list node) :=
   match skip_ws l with
   | Leaf (TStr s) _ :: r => Some (s, r)
   | Leaf (TUrl s) _ :: r => Some (s, r)
@@ -288,7 +279,7 @@ Fixpoint import_conds_spec (o : opts) (l : list node) : list etok * nat * list n
   end.
 
 Definition import_spec (o : opts) (sign : str) (prelude : list node) : option (list etok) :=
-  match import_target prelude with
+  match spec_import_target prelude with
   | None => None
   | Some (path, r) =>
       let '(conds, k, rest) := import_conds_spec o r in
@@ -336,9 +327,9 @@ Fixpoint rules_spec (fuel : nat) (o : opts) (chain : list (list etok)) (l : list
                 let w := if at_start then [] else [W_IMPORT_POS] in
                 match import_spec o sign prelude, term with
                 | Some toks, Some (Leaf TSemi _) =>
-                    mkso toks [] w [match import_target prelude with Some (p, _) => p | None => [] end] true
+                    mkso toks [] w [match spec_import_target prelude with Some (p, _) => p | None => [] end] true
                 | Some toks, None =>
-                    mkso toks [] w [match import_target prelude with Some (p, _) => p | None => [] end] true
+                    mkso toks [] w [match spec_import_target prelude with Some (p, _) => p | None => [] end] true
                 | _, _ => mkso [] [] w [] false
                 end
             | None =>
@@ -454,49 +445,6 @@ Fixpoint has_ws_or_dot (n : node) : bool :=
   end.
 
 
-(* D13: inside a selector-context block, a function whose body contains whitespace or a `.`
-   (the code processes it as a declaration value). depth0 = we are at the top level of a
-   prelude (functions there are handled in selector mode) *)
-Fixpoint k13_node (depth0 : bool) (n : node) : bool :=
-  match n with
-  | Leaf _ _ => false
-  | Block open _ body _ _ =>
-      (match open with
-       | TFunc _ => negb depth0 && existsb has_ws_or_dot body
-       | _ => false
-       end)
-      || (fix go (l : list node) : bool :=
-            match l with [] => false | x :: r => k13_node false x || go r end) body
-  end.
-Definition k13_prelude (l : list node) : bool := existsb (k13_node true) l.
-(* at-rule prelude blocks and import conditions: every block is already one level down *)
-
-(* D23: whitespace next to `+`/`-` in a math context that the code does not treat as calc *)
-Section K23.
-Variable rec : node -> bool -> bool -> bool.
-Fixpoint k23_l (ideal real : bool) (l : list node) (prev : option tok) {struct l} : bool :=
-  match l with
-  | [] => false
-  | n :: r =>
-      let t := node_tok n in
-      if is_comment t then k23_l ideal real r prev
-      else
-        (match n with
-         | Block open _ _ _ _ => rec n (child_math ideal open) (is_calc_fn open)
-         | Leaf (TWs _) _ =>
-             ideal && negb real && (is_plus_minus prev || is_plus_minus (first_noncomment r))
-         | _ => false
-         end) || k23_l ideal real r (Some t)
-  end.
-End K23.
-Fixpoint k23_node (n : node) (ideal real : bool) {struct n} : bool :=
-  match n with
-  | Leaf _ _ => false
-  | Block _ _ body _ _ => k23_l k23_node ideal real body None
-  end.
-Definition k23_list (ideal real : bool) (l : list node) (prev : option tok) : bool :=
-  k23_l k23_node ideal real l prev.
-
 (* D15: unicode-range *)
 Section K15.
 Variable rec : node -> bool.
@@ -572,8 +520,7 @@ Fixpoint k24_node (n : node) : bool :=
   end.
 
 (* whole-sheet scan for the rule-level classes; returns the list of class ids that apply *)
-Definition K13 : N := 13.  Definition K14 : N := 14.  Definition K15 : N := 15.
-Definition K17 : N := 17.  Definition K23 : N := 23.  Definition K24 : N := 24.
+Definition K15 : N := 15.  Definition K24 : N := 24.
 Definition K25 : N := 25.  Definition K26 : N := 26.  Definition K27 : N := 27.  Definition K28 : N := 28.
 
 Definition flag (b : bool) (k : N) : list N := if b then [k] else [].
@@ -602,45 +549,33 @@ Fixpoint known_rules (fuel : nat) (o : opts) (l : list node) : list N :=
           let '(prelude, term, rest) := take_prelude true r in
           let this :=
             match (if str_eqb x s_import then import_sign o else None) with
-            | Some _ =>
-                flag (match skip_ws prelude with
-                      | Leaf (TStr _) _ :: _ => false
-                      | Leaf (TUrl _) _ :: _ => true
-                      | Block (TFunc u) _ _ _ _ :: _ => str_eqb_ci u s_url
-                      | _ => false
-                      end) K17
-                ++ flag (has_class_opts o && import_layer_dot prelude) K25
-                ++ flag (k13_prelude prelude) K13
+            | Some _ => flag (has_class_opts o && import_layer_dot prelude) K25
             | None =>
-                flag (k13_prelude prelude) K13
-                ++ match term with
-                   | Some (Block _ _ body _ _) =>
-                       if ideal_contain x then
-                         (if contain_rule_list x then known_rules f o body
-                          else flag (match skip_ws body with [] => false | _ => true end) K14)
-                       else []
-                   | _ => []
-                   end
+                match term with
+                | Some (Block _ _ body _ _) => if ideal_contain x then known_rules f o body else []
+                | _ => []
+                end
             end in
           this ++ known_rules f o rest
       | l0 =>
           let '(prelude, term, rest) := take_prelude false l0 in
-          flag (k13_prelude prelude) K13
           (* `: host` written with whitespace/comment after the colon is accepted by the code *)
-          ++ flag (convert_host o &&
-                   match skip_ws prelude with
-                   | Leaf TColon _ :: n2 :: _ => is_ws_or_comment (node_tok n2)
-                   | _ => false
-                   end) K26
+          flag (convert_host o &&
+                match skip_ws prelude with
+                | Leaf TColon _ :: n2 :: _ => is_ws_or_comment (node_tok n2)
+                | _ => false
+                end) K26
           ++ known_rules f o rest
       end
   end.
 
-(* class ids that apply to a sheet (without repetition): 15, 23, 24, 27 are properties of the token
-   tree alone, the others depend on the rule structure *)
+(* class ids that apply to a sheet (without repetition): 15, 24, 27, 28 are properties of the token
+   tree alone, 25 and 26 depend on the rule structure.  The former classes 13, 14, 17, 23 (and 22
+   of the source maps) were repaired in the code (fix: commits) and no longer exist: such sheets
+   are checked against the specification like any other. *)
 Definition known (o : opts) (tree : list node) : list N :=
   nodup N.eq_dec
-    (flag (k15_list tree) K15 ++ flag (k23_list false false tree None) K23
+    (flag (k15_list tree) K15
      ++ flag (existsb k24_node tree) K24 ++ flag (k27_list tree) K27 ++ flag (k28_list tree) K28
      ++ known_rules (S (nodes_size tree)) o tree).
 
